@@ -103,7 +103,7 @@ def e1_jobs(prop, tier, seed):
     args = []
     for k in range(nm):
         args.append(["walk", "--seed", str(seed * 7919 + k), "--shard", str(k), "--nshards", str(nm), "--count", str(cnt), "--ops-min", "25", "--ops-max", "45"] + base)
-    mj = miri_jobs("seqdrive", args, "miri", seeds=None, timeout=1500)
+    mj = miri_jobs("seqdrive", args, "miri", seeds=None, timeout=1500 if quick else 3600)
     for k, j in enumerate(mj):
         j.env["MIRIFLAGS"] = f"-Zmiri-seed={seed * 31 + k}"
         j.crash = crash
@@ -243,9 +243,10 @@ READER_RULE = ("reader trees built from the crate's real adapters (Box<dyn Buf> 
 def run_c09(prop, tier, seed, t0):
     quick = tier != "thorough"
     n = vlib.JOBS
+    cap = [] if quick else ["--secs", "500"]  # thorough: time-capped, the evidence counts what actually ran
     jobs = buf_jobs("dbg", "frag", seed, n, ["--maxlen", "6" if quick else "7"], "frag-dbg")
-    jobs += buf_jobs("rel", "readers", seed, n, ["--count", "40000" if quick else "1500000"], "rd-rel")
-    jobs += buf_jobs("dbg", "readers", seed + 1, n, ["--count", "15000" if quick else "400000"], "rd-dbg")
+    jobs += buf_jobs("rel", "readers", seed, n, ["--count", "40000" if quick else "1500000"] + cap, "rd-rel")
+    jobs += buf_jobs("dbg", "readers", seed + 1, n, ["--count", "15000" if quick else "400000"] + cap, "rd-dbg")
     nm = 4 if quick else 16
     jobs += buf_miri("readers", [["--seed", str(seed), "--shard", str(k), "--nshards", str(nm), "--count", "60" if quick else "250"] for k in range(nm)], "miri-rd", seed)
     # io::Cursor sweep (positions inside / past the end / around 2^32, 2^63, u64::MAX x counts near usize::MAX):
@@ -264,11 +265,12 @@ def run_c09(prop, tier, seed, t0):
 def run_c12(prop, tier, seed, t0):
     quick = tier != "thorough"
     n = vlib.JOBS
+    cap = [] if quick else ["--secs", "400"]
     jobs = buf_jobs("dbg", "frag", seed, n, ["--maxlen", "5" if quick else "7"], "frag-dbg")
-    jobs += buf_jobs("rel", "readers", seed + 2, n, ["--count", "40000" if quick else "1500000"], "rd-rel")
-    jobs += buf_jobs("dbg", "readers", seed + 3, n // 2, ["--count", "10000" if quick else "300000"], "rd-dbg")
-    jobs += buf_jobs("rel", "writers", seed, n, ["--count", "40000" if quick else "1500000"], "wr-rel")
-    jobs += buf_jobs("dbg", "writers", seed + 1, n // 2, ["--count", "10000" if quick else "300000"], "wr-dbg")
+    jobs += buf_jobs("rel", "readers", seed + 2, n, ["--count", "40000" if quick else "1500000"] + cap, "rd-rel")
+    jobs += buf_jobs("dbg", "readers", seed + 3, n // 2, ["--count", "10000" if quick else "300000"] + cap, "rd-dbg")
+    jobs += buf_jobs("rel", "writers", seed, n, ["--count", "40000" if quick else "1500000"] + cap, "wr-rel")
+    jobs += buf_jobs("dbg", "writers", seed + 1, n // 2, ["--count", "10000" if quick else "300000"] + cap, "wr-dbg")
     rule = (READER_RULE + " Additionally (the part owned by C12) every tree is taken apart afterwards with the crate's own into_inner()/get_ref()/limit(): each inner buffer must hold exactly model[transferred..], limit() must equal n - transferred (also after set_limit in mid-stream, limits 0 / inside / equal / beyond / usize::MAX); "
             "Reader::read / fill_buf+consume / read_to_end and Writer::write / flush at the root must transfer min(available, requested) and never fail; writer trees (Chain, Limit, &mut, Box over Vec, BytesMut, &mut [u8], &mut [MaybeUninit<u8>]) must distribute bytes first-buffer-first within their limits.")
     return run_and_finish(prop, tier, seed, t0, jobs, rule, assumptions=["expected per-leaf byte counts are computed from the adapter tree by the harness (distribute())"])
@@ -299,9 +301,10 @@ def run_c10(prop, tier, seed, t0):
 def run_c11(prop, tier, seed, t0):
     quick = tier != "thorough"
     n = vlib.JOBS
-    jobs = buf_jobs("rel", "writers", seed, n, ["--count", "60000" if quick else "2000000"], "wr-rel")
-    jobs += buf_jobs("dbg", "writers", seed + 1, n, ["--count", "20000" if quick else "500000"], "wr-dbg")
-    jobs += buf_jobs("asan-rel", "writers", seed + 2, n // 2, ["--count", "20000" if quick else "500000"], "asan-rel", kind="asan", env=dict(ASAN_ENV, ASAN_OPTIONS=ASAN_ENV["ASAN_OPTIONS"].replace("detect_leaks=1", "detect_leaks=0")), parity=False)
+    cap = [] if quick else ["--secs", "500"]
+    jobs = buf_jobs("rel", "writers", seed, n, ["--count", "60000" if quick else "2000000"] + cap, "wr-rel")
+    jobs += buf_jobs("dbg", "writers", seed + 1, n, ["--count", "20000" if quick else "500000"] + cap, "wr-dbg")
+    jobs += buf_jobs("asan-rel", "writers", seed + 2, n // 2, ["--count", "20000" if quick else "500000"] + cap, "asan-rel", kind="asan", env=dict(ASAN_ENV, ASAN_OPTIONS=ASAN_ENV["ASAN_OPTIONS"].replace("detect_leaks=1", "detect_leaks=0")), parity=False)
     nm = 4 if quick else 16
     jobs += buf_miri("writers", [["--seed", str(seed), "--shard", str(k), "--nshards", str(nm), "--count", "50" if quick else "200"] for k in range(nm)], "miri-wr", seed)
     rule = ("writer trees (Vec<u8> and BytesMut in 3 kinds with/without initial contents and spare capacity, &mut [u8] and &mut [MaybeUninit<u8>] inside guarded arenas, Chain, Limit incl. through &mut dyn, nested to depth 4, driven through dyn / &mut T / Box<T>) receive sequences of put_slice, put_bytes, every typed put_X (38 methods, values incl. sign-bit patterns, nbytes 0..=9), put(Buf) with reader trees (specialised and default put), set_limit; "
